@@ -42,8 +42,9 @@ func VxB_Revalidate2() {
 		t1 := vxTime(vxClockReading(w.clk.phase))
 		d := t1.UTC().Format(http.TimeFormat) // the origin's clock agrees with ours
 		if okind == 0 {
-			return &http.Response{StatusCode: 304, Header: http.Header{"Date": []string{d}, "Cache-Control": []string{"max-age=100"},
-				"X-Rev": []string{"2"}, "Etag": []string{"\"a2\""}, "Content-Length": []string{"999"}, "Connection": []string{"X-Hop"}, "X-Hop": []string{"h"}},
+			// (Cache-Control and X-Multi arrive on two field lines each, RFC 9110 section 5.3)
+			return &http.Response{StatusCode: 304, Header: http.Header{"Date": []string{d}, "Cache-Control": []string{"private", "max-age=100"},
+				"X-Multi": []string{"m1", "m2"}, "X-Rev": []string{"2"}, "Etag": []string{"\"a2\""}, "Content-Length": []string{"999"}, "Connection": []string{"X-Hop"}, "X-Hop": []string{"h"}},
 				Body: &vxBodyT{tag: 1}}, nil
 		}
 		return &http.Response{StatusCode: 200, Header: http.Header{"Date": []string{d}, "Cache-Control": []string{"max-age=100"}, "Vary": []string{"X-V"},
@@ -87,6 +88,7 @@ func VxB_Revalidate2() {
 		vxAssert(vxTagOf(r2) == "stored-a", "C08/body-changed-by-304")
 		vxAssert(r2.Header.Get("Content-Length") != "999", "C08/content-length-taken-from-304")
 		vxAssert(r2.Header.Get("X-Hop") == "", "C08/hop-by-hop-field-stored")
+		vxAssert(len(r2.Header["X-Multi"]) == 2 && len(r2.Header["Cache-Control"]) == 2, "C08/field-lines-of-304-lost")
 	} else {
 		vxAssert(vxTagOf(r2) == "new-a", "C08/replaced-representation-served")
 	}
